@@ -182,6 +182,23 @@ func VerifC02Pipeline() {
 		if vPipeDelayExpand {
 			kinds = 5
 		}
+		if vParam("stalereq", 1) == 1 && s == 0 && vChoose(2) == 1 {
+			// a replication request b sent in an older leader epoch (any epoch but
+			// the current one and 0, which means "not stated"), carrying b's log end
+			// of that time (any offset), arrives only now: it must change nothing
+			e := vNondetUint64("stale-epoch")
+			vAssume(e != epoch)
+			vAssume(e != 0)
+			o := vNondetInt64("stale-offset")
+			vAssume(o >= 0)
+			vAssume(o <= 3)
+			vPipeReqs = append(vPipeReqs, &proto.ReplicationRequest{ReplicaID: "b", Offset: vConcretize64(o), LeaderEpoch: e})
+			vPipeGotRsp = false
+			a.p.handleReplicationRequest(&nats.Msg{Subject: "r", Data: []byte{byte(len(vPipeReqs) - 1)}})
+			vYield()
+			vAssert(!vPipeGotRsp, "a replication request from another leader epoch is not answered")
+			vCover("stale-request")
+		}
 		switch vChoose(kinds) {
 		case 4: // the controller applies the ISR expansion the replicator proposed earlier
 			if vPipePendingExpand == "" {
